@@ -100,6 +100,11 @@ def pca(X, centre=True, inplace=False, eps=1e-10):
     """
     n, d = X.shape
 
+    if not np.issubdtype(X.dtype, np.inexact):
+        # integer data would be multiplied in its own (possibly narrow or
+        # unsigned) dtype, which wraps around silently
+        X = X.astype(np.float64)
+
     if centre:
         # centre data
         # m (mean vector): d
